@@ -192,13 +192,25 @@ def run(ctx):
                         inv = [e for e in r.effects if e[0].rsplit('::', 1)[-1] == 'invalid_length']
                         if len(oks) != N and len(inv) == N and not oks:
                             # the same handling written as a match: invalid_length(k, ..) is called directly on the None arm of element k
-                            for k, e in enumerate(inv):
+                            toks_ = [e_[4] for e_ in nexts]
+                            seen_idx = []
+                            for e in inv:
                                 a0 = e[1][0] if e[1] else None
                                 mo = re.match(r'^(?:0x([0-9a-f]+)_\d+|d#(\d+))$', str(a0[2])) if a0 is not None else None
                                 val_ = None if mo is None else (int(mo.group(1), 16) if mo.group(1) is not None else int(mo.group(2)))
-                                if val_ != k:
-                                    bad = 'missing element %d is reported as invalid_length(%s)' % (k, a0[2] if a0 is not None else '?')
+                                # which element was found missing on the path to this call: the latest next_element its path condition depends on
+                                deps_ = set()
+                                for c_ in e[2]:
+                                    if isinstance(c_, tm.T):
+                                        deps_ |= set(c_.deps)
+                                has_ = [j for j, tk in enumerate(toks_) if tk in deps_]
+                                k_ = max(has_) if has_ else None
+                                seen_idx.append(k_)
+                                if val_ is None or k_ is None or val_ != k_:
+                                    bad = 'missing element %s is reported as invalid_length(%s)' % (k_, a0[2] if a0 is not None else '?')
                                     break
+                            if not bad and sorted(x for x in seen_idx if x is not None) != list(range(N)):
+                                bad = 'missing-element reports cover elements %s, expected each of 0..%d once' % (sorted(seen_idx, key=str), N - 1)
                         elif len(oks) != N:
                             bad = '%d missing-element handlers for %d elements' % (len(oks), N)
                         else:
